@@ -10,7 +10,7 @@ VARIABLES l, eng
 vars == <<callVars, l, eng>>
 
 Init == /\ l = 1 /\ eng = <<0, 0>>
-        /\ cfg = [kind |-> "none", d |-> 0, k |-> 0, n |-> 0, w |-> <<>>, bins |-> 0, calls |-> 0]
+        /\ cfg = [kind |-> "none", d |-> 0, k |-> 0, n |-> 0, w |-> <<>>, bins |-> 0, calls |-> 0, noSq |-> FALSE]
         /\ phase = "Idle" /\ pos = 0 /\ cur = NoCall
         /\ acc = [calls |-> 0, nz |-> 0, fin |-> 0, sum |-> 0, sumsq |-> 0, adj |-> <<>>, exact |-> TRUE]
 
@@ -24,7 +24,7 @@ TIterBegin ==
     /\ phase = "Idle"
     /\ (eng[1] > 0) => Ev.k = Usage(eng[1], eng[2])
     /\ Keep
-    /\ BeginIter([kind |-> Ev.kind, d |-> Ev.d, k |-> Ev.k, n |-> Ev.n, w |-> Ev.w, bins |-> Ev.bins, calls |-> Ev.calls])
+    /\ BeginIter([kind |-> Ev.kind, d |-> Ev.d, k |-> Ev.k, n |-> Ev.n, w |-> Ev.w, bins |-> Ev.bins, calls |-> Ev.calls, noSq |-> Ev.noSq = 1])
     /\ Step
 
 TDraw == Keep /\ Is("Draw") /\ Draw(Ev.n) /\ Step
